@@ -86,6 +86,42 @@ CHECKS = [
          design_ref="§3 C12",
          note="Trusted: TLC, the event classifier (store key -> marker kind), gate scheduler. Known finding: AtMostOneBundle is violated by the protocol itself for concurrent commits / crash before diamond-done + retry (shown on the model and reproduced on the code); all other properties hold. Bounds: quick = 12-runner-free small model (84 k states) + 205 scenarios; thorough = 12.7 M-state model, repaired protocol checked, ~1 900 scenarios",
          technique="TLA+ model checking (TLC) of the protocol + TLC trace validation of gate-scheduled executions of the real code"),
+    dict(id="C13",
+         text="Purge.tla (deduplicated uploads, deletions, index build in chunks with crash/resume and transient faults, "
+              "delete-unused by index + age) model-checked: NoNeededBlobDeleted holds for the repaired design and is shown "
+              "violated without refresh-on-dedup; TLC-enumerated scenarios (history, earlier index, chunk size, crash after k "
+              "stored chunks + resume, transient faults on chunk writes / attribute reads / deletes / listing pages, uploads in "
+              "between) run on the real PurgeBuildReverseIndex / PurgeDeleteUnused, then every committed bundle is downloaded "
+              "and compared byte for byte",
+         design_ref="§3 C13",
+         note="Trusted: TLC, crash/fault wrappers of the in-memory store, pebble KV in a scratch dir. Verdict only when both "
+              "commands report success. Bounds: quick = 140 sampled scenarios + 1.6 M-state model; thorough = all 13 k+ scenarios, "
+              "13 M-state model",
+         technique="TLA+ model checking (TLC) + TLC-enumerated crash/fault scenarios replayed on the purge commands"),
+    dict(id="C14",
+         text="Fault-free, crash-free scenarios of Purge.tla enumerated by TLC: the index chunk files read back must hold "
+              "exactly the keys (roots and leaves) of the scanned bundles, for chunk sizes 1,2,3,7 and with an earlier larger "
+              "index present, and the blob store after delete-unused must be exactly the initial one minus the unreferenced "
+              "old blobs; concurrent PurgeLock rounds validated against ObjectStore!Put by TLC",
+         design_ref="§3 C14",
+         note="Trusted: TLC, the abstract<->concrete key map of the fixture (3 files sharing a leaf). A blob updated exactly at "
+              "the index time is unconstrained",
+         technique="TLA+ model checking (TLC) + TLC-enumerated scenarios replayed on the purge commands + TLC trace validation of "
+                   "the lock race"),
+    dict(id="C22",
+         text="Tracker.tla (bitmap of written offsets; ModifiedOp / ContigBound result operators checked sound and maximal, "
+              "marker encoding faithful, writes commutative/idempotent/exact by exhaustive TLC); TLC enumerates every write "
+              "sequence within the bound and samples longer ones, each step carrying the expected answer for every probe offset; "
+              "the sequences are replayed on the real tracker (trackWrite/getRangeToRead through the verif export hook) and after "
+              "every write every offset 0..N+1 is probed with lengths {1,2,N,2N+7}: modified == ModifiedOp(off) and "
+              "1 <= contiguous <= min(len, ContigBound(off))",
+         design_ref="§3 C22",
+         note="Trusted: TLC, the harness' comparison code (self-tested in every run against an independent interval-list "
+              "tracker inside the harness), the export hook pkg/filetracker/verif_export.go. Single goroutine. Zero-length "
+              "writes are outside the quantification. A contiguous length shorter than the distance to the boundary is accepted. "
+              "Bounds: quick = all sequences of 3 writes, off 0..4, len 1..3 + 300 random of 8 writes; thorough = all sequences "
+              "of 4 writes, off 0..6, len 1..4 (614 656) + 20 000 random",
+         technique="TLA+ model checking (TLC) + replay of TLC-enumerated and TLC-sampled write sequences on pkg/filetracker"),
     dict(id="C16",
          text="ObjectStore.tla is model-checked exhaustively over a hostile key set (pagination = one-page listing, sorted, "
               "duplicate free, exclusive winner); TLC-generated operation histories are replayed on the real localfs store with "
